@@ -169,21 +169,12 @@ fn _contains_msg_sender_conditions(function_definition: &Box<FunctionDefinition>
 
             for expression in function_args {
                 match expression {
-                    //Match for both `function(msg.sender == owner)` or `function(msg.sender != owner)`
-                    Expression::Equal(_, box_expression, _)
-                    | Expression::NotEqual(_, box_expression, _) => {
-                        if let Expression::MemberAccess(_, box_expression, identifier) =
-                            *box_expression
-                        {
-                            //If the member access identifier is "msg.sender"
-                            let Identifier { name: right, .. } = identifier;
-                            if let Expression::Variable(Identifier { name: left, .. }) =
-                                *box_expression
-                            {
-                                if left == "msg" && right == "sender" {
-                                    return true;
-                                }
-                            }
+                    //Match for `function(msg.sender == owner)`, `function(msg.sender != owner)`
+                    //and the same comparisons with msg.sender on the right hand side
+                    Expression::Equal(_, box_expression, box_expression_1)
+                    | Expression::NotEqual(_, box_expression, box_expression_1) => {
+                        if _is_msg_sender(&box_expression) || _is_msg_sender(&box_expression_1) {
+                            return true;
                         }
                     }
 
@@ -206,6 +197,17 @@ fn _contains_msg_sender_conditions(function_definition: &Box<FunctionDefinition>
     }
 
     return false;
+}
+
+//Return true if the expression is `msg.sender`
+fn _is_msg_sender(expression: &Expression) -> bool {
+    if let Expression::MemberAccess(_, box_expression, Identifier { name: right, .. }) = expression {
+        if let Expression::Variable(Identifier { name: left, .. }) = box_expression.as_ref() {
+            return left == "msg" && right == "sender";
+        }
+    }
+
+    false
 }
 
 #[test]
